@@ -811,6 +811,11 @@ def run(ctx, report):
                 else:
                     R8.ok(inst, sample='%s -> segments %s' % (inst, [afs.reg_sg[o[afs.segm]] for o in ops]))
 
+    # ---------------------------------------------------------------- D9 a decode cannot change what the next decode returns
+    R9 = report.rule('C01.D9', 'operands handed to a decoded instruction are objects created by that decode (never a shared table entry)', floor=8)
+    from .c12 import operand_ownership_rule
+    operand_ownership_rule(ctx, R9)
+
 
 MUTANTS = [
     ('string-src-ds', 'miasmx/arch/ia32_arch.py', "    for p in prefix:\n        if p in prefix_seg_inv:\n            segm = prefix_seg_inv[p]\n    return segm", "    return segm", 'C01.D8'),
